@@ -4,6 +4,7 @@ package e2
 import (
 	"fmt"
 	"hash/fnv"
+	"sync"
 	"sync/atomic"
 
 	"verif/calls"
@@ -20,6 +21,7 @@ type prepared struct {
 type Driver struct {
 	Cmp   *enum.Cmp
 	calls []prepared
+	pool  sync.Pool
 }
 
 func New(cmp *enum.Cmp, cs []calls.Call) *Driver {
@@ -39,7 +41,16 @@ func (d *Driver) One(bits []bool, describe func() interface{}) int {
 	// The sequence is handed over as callers cut samples out of a longer stream: a window with the next bits of
 	// the stream behind it (capacity > length). The values the caller gets for the following sample are values of
 	// the bits the caller supplied only if the call leaves the stream alone.
-	win := make([]bool, len(bits)+streamTail)
+	// The buffer is reused from call to call (refilled with the next sequence), as a caller streaming samples
+	// through one buffer does: a result remembered by buffer identity instead of content shows as a stale value.
+	need := len(bits) + streamTail
+	var win []bool
+	if bp, ok := d.pool.Get().(*[]bool); ok && cap(*bp) >= need {
+		win = (*bp)[:need]
+	} else {
+		win = make([]bool, need)
+	}
+	defer d.pool.Put(&win)
 	copy(win, bits)
 	for k := len(bits); k < len(win); k++ {
 		win[k] = tailBit(k - len(bits))
